@@ -152,6 +152,26 @@ theorem attribute_and_paren_not_shared :
     (lookup EPV.Gen.C01.methods "attribute").map rowConst = some false ∧
     (lookup EPV.Gen.C01.methods "(").map rowConst = some false := by decide
 
+/-- **attribute_axis_and_paren_equivalent.**  The two symbols with different function objects in 2.0+
+run the same code on the fragment (facts regenerated from the live sources by AST comparison):
+the `axis` branch of the 2.0 multi-role `attribute` token is statement-for-statement the loop of the 1.0
+`attribute::` method; its `select_with_focus` is the base one (forward numbering) and the 1.0 axis is a
+forward axis (forward numbering too); `(`…`)` passes its non-empty operand through in 1.0 and 2.0; the 3.0/3.1
+`attribute` token is the 2.0 object; the 3.0/3.1 `(` registers only `evaluate` (dynamic function calls), its
+`select` is the generic `XPathToken.select` over `evaluate` — that this yields the operand's node sequence
+is the part that stays observed by the correspondence run.  (The one difference left — the base `select_with_focus` resets `context.axis`
+before selecting — is immaterial when evaluation starts with `axis=None`: `swf_entry_axis_none`.) -/
+theorem attribute_axis_and_paren_equivalent :
+    EPV.Gen.C01.facts.map (·.1) =
+      ["attribute20-axis-branch-is-the-1.0-loop", "attribute-select-is-the-same-in-2.0-3.0-3.1",
+       "attribute20-select_with_focus-is-the-base-forward-one", "attribute10-is-a-forward-axis",
+       "paren10-select-passes-through", "paren20-select-passes-through-when-non-empty",
+       "paren30-select-is-the-generic-select-over-evaluate", "paren31-is-the-3.0-object"] ∧
+    EPV.Gen.C01.facts.all (·.2) = true := by decide
+
+/-- the model numbers `attribute::t[…]` forward, as both token classes do -/
+theorem attribute_swf_forward (t : Test) (ab : Bool) : swfRev (.step .attribute t ab) = false := rfl
+
 /-- test: `//x[position() = last()]/@k | //y/..` uses shared symbols only -/
 example : usesOnlyShared (.union
     (.slash (.droot (.pred (.step .child (.name "" "x") true) (.cmp .eq .position .last)))
